@@ -44,3 +44,10 @@ Require Import GM.proofs.ParseInv GM.proofs.ParseFinal.
 Theorem C04_convert_model_safe_urls : forall c src o, unsafe c = false -> bytes_ok src -> ConvertModel c src = Ok o -> Inert o.
 Proof. exact ConvertModel_safe_inert_all. Qed.
 Print Assumptions C04_convert_model_safe_urls.
+
+(* and with extension.GFM, where Linkify adds autolinks of its own (model/GfmI.v, checked output;
+   compared with goldmark on every run): every href / src of safe-mode output is guarded *)
+Require Import GM.model.InlineParseX GM.model.GfmI GM.model.GfmChecked GM.proofs.GfmCheckedProofs.
+Theorem C04_convert_gfm_safe_urls : forall xc c src o, unsafe c = false -> ConvertModelXC xc c src = Ok o -> Inert o.
+Proof. exact ConvertModelXC_safe_inert. Qed.
+Print Assumptions C04_convert_gfm_safe_urls.
